@@ -1,742 +1,8 @@
-import BnpVerif.Model.C04
-/-! C04 property theorems: the extractor refines "a list of records". Helper lemmas first;
-the property theorems are the ones listed in `Audit/C04.lean`. -/
-namespace C04
-open PyIdx
-
-/-! ### slices -/
-
-theorem slice_length {α} (d : List α) (s l : Nat) (h : s + l ≤ d.length) : (slice d s l).length = l := by
-  unfold slice; simp; omega
-
-theorem slice_append_mid {α} (A D B : List α) (s l : Nat) (h : s + l ≤ D.length) :
-    slice (A ++ D ++ B) (A.length + s) l = slice D s l := by
-  unfold slice
-  rw [List.append_assoc, List.drop_append]
-  have h1 : List.drop (A.length + s) A = [] := by simp
-  have h2 : A.length + s - A.length = s := by omega
-  rw [h1, h2, List.nil_append, List.drop_append_of_le_length (by omega)]
-  rw [List.take_append_of_le_length (by simp; omega)]
-
-theorem slice_slice {α} (d : List α) (es ee fs fl : Nat) (h1 : es ≤ fs) (h2 : fs + fl ≤ ee) (_h3 : ee ≤ d.length) :
-    slice (slice d es (ee - es)) (fs - es) fl = slice d fs fl := by
-  unfold slice
-  rw [List.drop_take, List.take_take, List.drop_drop]
-  have : es + (fs - es) = fs := by omega
-  rw [this]
-  congr 1
-  omega
-
-theorem slice_zero_all {α} (d : List α) : slice d 0 d.length = d := by
-  unfold slice; simp
-
-/-! ### well-formedness -/
-
-def RowWF (dlen : Nat) (r : Row) : Prop :=
-  r.eS ≤ r.eE ∧ r.eE ≤ dlen ∧ r.fS.length = r.fL.length ∧ (∀ s ∈ r.fS, r.eS ≤ s) ∧
-  (∀ p ∈ List.zip r.fS r.fL, p.1 + p.2 ≤ r.eE)
-
-def LenWF (e : Ext) : Prop :=
-  e.fLen.length = e.fStart.length ∧ e.eStart.length = e.fStart.length ∧ e.eEnd.length = e.fStart.length
-
-def WF (e : Ext) : Prop := LenWF e ∧ ∀ r ∈ e.rows, RowWF e.data.length r
-
-/-- the representation invariant of the pass-through path: when the extractor claims to be
-contiguous its data is exactly its records, in order -/
-def Inv (e : Ext) : Prop := WF e ∧ (e.contiguous = true → e.data = specBytes e.abs)
-
-/-! ### rows of the parallel arrays -/
-
-theorem rows_ofRows (d : Bytes) (rs : List Row) (c : Bool) : (Ext.ofRows d rs c).rows = rs := by
-  unfold Ext.ofRows Ext.rows
-  induction rs with
-  | nil => rfl
-  | cons r rs ih => simp only [List.map_cons, List.zip_cons_cons, List.zipWith_cons_cons, ih]
-
-theorem rows_length (e : Ext) (h : LenWF e) : e.rows.length = e.fStart.length := by
-  unfold Ext.rows; simp [List.length_zipWith, List.length_zip]; unfold LenWF at h; omega
-
-theorem rows_select (e : Ext) (h : LenWF e) (ixs : List Nat) : (e.select ixs).rows = gather e.rows ixs := by
-  obtain ⟨h1, h2, h3⟩ := h
-  unfold Ext.rows Ext.select
-  simp only [List.zip]
-  rw [gather_zipWith _ _ _ (by simp [List.length_zipWith]; omega)]
-  rw [gather_zipWith _ _ _ (by omega), gather_zipWith _ _ _ (by omega)]
-
-theorem lenWF_select (e : Ext) (h : LenWF e) (ixs : List Nat) (hv : ∀ k ∈ ixs, k < e.len) : LenWF (e.select ixs) := by
-  obtain ⟨h1, h2, h3⟩ := h
-  unfold Ext.len at hv
-  have a := gather_length e.fStart ixs hv
-  have b := gather_length e.fLen ixs (by intro k hk; rw [h1]; exact hv k hk)
-  have c := gather_length e.eStart ixs (by intro k hk; rw [h2]; exact hv k hk)
-  have d := gather_length e.eEnd ixs (by intro k hk; rw [h3]; exact hv k hk)
-  unfold LenWF Ext.select
-  simp only
-  exact ⟨by rw [b, a], by rw [c, a], by rw [d, a]⟩
-
-theorem wf_select (e : Ext) (h : WF e) (ixs : List Nat) (hv : ∀ k ∈ ixs, k < e.len) : WF (e.select ixs) := by
-  refine ⟨lenWF_select e h.1 ixs hv, ?_⟩
-  intro r hr
-  rw [rows_select e h.1] at hr
-  exact h.2 r (mem_gather _ _ _ hr)
-
-/-! ### selection -/
-
-theorem abs_select (e : Ext) (h : LenWF e) (ixs : List Nat) : (e.select ixs).abs = gather e.abs ixs := by
-  unfold Ext.abs
-  rw [rows_select e h, gather_map]
-  rfl
-
-/-- **C04.select_refines** — for every index form (single int, slice with any step, boolean mask,
-int list with repeats and negatives) selecting on the extractor is NumPy-indexing the list of
-records it denotes; an invalid index fails in both. -/
-theorem select_refines (e : Ext) (h : LenWF e) (ix : Idx) :
-    (e.index ix).map Ext.abs = pyIndex e.abs ix := by
-  unfold Ext.index pyIndex
-  have hl : e.abs.length = e.len := by
-    unfold Ext.abs Ext.len; rw [List.length_map, rows_length e h]
-  rw [hl]
-  cases hix : ix.toList e.len with
-  | none => rfl
-  | some ixs => simp [abs_select e h ixs]
-
-/-! ### concatenation -/
-
-def shiftRow (off : Nat) (r : Row) : Row := ⟨r.fS.map (· + off), r.fL, r.eS + off, r.eE + off⟩
-
-theorem rows_shift (e : Ext) (off : Nat) :
-    (List.zipWith (fun (p : List Nat × List Nat) (q : Nat × Nat) => Row.mk p.1 p.2 q.1 q.2)
-      (List.zip (e.fStart.map (·.map (· + off))) e.fLen) (List.zip (e.eStart.map (· + off)) (e.eEnd.map (· + off))))
-    = e.rows.map (shiftRow off) := by
-  unfold Ext.rows
-  generalize e.fStart = a
-  generalize e.fLen = b
-  generalize e.eStart = c
-  generalize e.eEnd = d
-  induction a generalizing b c d with
-  | nil => simp
-  | cons x xs ih =>
-    cases b with
-    | nil => simp
-    | cons y ys =>
-      cases c with
-      | nil => simp
-      | cons z zs =>
-        cases d with
-        | nil => simp
-        | cons w ws => simp [shiftRow, ih]
-
-theorem rows_concatFrom (off : Nat) (e : Ext) (es : List Ext) (h : LenWF e) :
-    (concatFrom off (e :: es)).rows = e.rows.map (shiftRow off) ++ (concatFrom (off + e.data.length) es).rows := by
-  obtain ⟨h1, h2, h3⟩ := h
-  rw [← rows_shift]
-  simp only [concatFrom, Ext.rows]
-  rw [List.zip_append (by simp; omega), List.zip_append (by simp; omega)]
-  rw [List.zipWith_append (by simp [List.length_zip]; omega)]
-
-theorem absRow_shift (Pfx D B : Bytes) (r : Row) (h : RowWF D.length r) :
-    absRow (Pfx ++ D ++ B) (shiftRow Pfx.length r) = absRow D r := by
-  obtain ⟨h1, h2, h3, h4, h5⟩ := h
-  unfold absRow shiftRow
-  simp only
-  congr 1
-  · have : r.eE + Pfx.length - (r.eS + Pfx.length) = r.eE - r.eS := by omega
-    rw [this, Nat.add_comm r.eS, slice_append_mid _ _ _ _ _ (by omega)]
-  · rw [List.zipWith_map_left]
-    apply List.ext_getElem
-    · simp
-    · intro i hi1 hi2
-      simp only [List.getElem_zipWith]
-      congr 1
-      omega
-
-theorem rowWF_shift (off dlen extra : Nat) (r : Row) (h : RowWF dlen r) :
-    RowWF (off + dlen + extra) (shiftRow off r) := by
-  obtain ⟨h1, h2, h3, h4, h5⟩ := h
-  unfold shiftRow
-  refine ⟨by simp; omega, by simp; omega, by simp [h3], ?_, ?_⟩
-  · intro s hs
-    simp only [List.mem_map] at hs
-    obtain ⟨s0, hs0, rfl⟩ := hs
-    have := h4 s0 hs0
-    simp; omega
-  · intro p hp
-    simp only at hp
-    rw [List.zip_map_left] at hp
-    simp only [List.mem_map] at hp
-    obtain ⟨p0, hp0, rfl⟩ := hp
-    have := h5 p0 hp0
-    simp; omega
-
-theorem concatFrom_spec (es : List Ext) (hes : ∀ e ∈ es, WF e) :
-    ∀ (Pfx : Bytes),
-      (concatFrom Pfx.length es).rows.map (absRow (Pfx ++ (concatFrom Pfx.length es).data)) = (es.map Ext.abs).flatten
-      ∧ LenWF (concatFrom Pfx.length es)
-      ∧ (∀ r ∈ (concatFrom Pfx.length es).rows, RowWF (Pfx.length + (concatFrom Pfx.length es).data.length) r)
-      ∧ (concatFrom Pfx.length es).data = (es.map (·.data)).flatten
-      ∧ (concatFrom Pfx.length es).contiguous = es.all (·.contiguous) := by
-  induction es with
-  | nil =>
-    intro Pfx
-    refine ⟨by simp [concatFrom, Ext.rows], by simp [concatFrom, LenWF], by simp [concatFrom, Ext.rows], by simp [concatFrom], by simp [concatFrom]⟩
-  | cons e es ih =>
-    intro Pfx
-    have he := hes e (by simp)
-    have ih' := ih (fun x hx => hes x (by simp [hx])) (Pfx ++ e.data)
-    simp only [List.length_append] at ih'
-    obtain ⟨i1, i2, i3, i4, i5⟩ := ih'
-    have hdata : (concatFrom Pfx.length (e :: es)).data = e.data ++ (concatFrom (Pfx.length + e.data.length) es).data := by
-      simp [concatFrom]
-    refine ⟨?_, ?_, ?_, ?_, ?_⟩
-    · rw [rows_concatFrom _ _ _ he.1, hdata, List.map_append, List.map_cons, List.flatten_cons]
-      congr 1
-      · unfold Ext.abs
-        rw [List.map_map]
-        apply List.map_congr_left
-        intro r hr
-        simp only [Function.comp]
-        rw [← List.append_assoc]
-        exact absRow_shift Pfx e.data _ r (he.2 r hr)
-      · rw [← List.append_assoc]; exact i1
-    · obtain ⟨a1, a2, a3⟩ := he.1
-      obtain ⟨b1, b2, b3⟩ := i2
-      simp only [concatFrom, LenWF, List.length_append, List.length_map]
-      omega
-    · intro r hr
-      rw [rows_concatFrom _ _ _ he.1] at hr
-      rw [hdata, List.length_append]
-      simp only [List.mem_append, List.mem_map] at hr
-      cases hr with
-      | inl h =>
-        obtain ⟨r0, hr0, rfl⟩ := h
-        have := rowWF_shift Pfx.length e.data.length (concatFrom (Pfx.length + e.data.length) es).data.length r0 (he.2 r0 hr0)
-        rw [Nat.add_assoc] at this; exact this
-      | inr h =>
-        have := i3 r h
-        rw [Nat.add_assoc] at this; exact this
-    · rw [hdata, i4]; simp
-    · simp [concatFrom, i5]
-
-/-- **C04.concat_refines** — concatenating extractors concatenates the record lists they denote
-(field offsets and record bounds are shifted by the cumulative data sizes). -/
-theorem concat_refines (es : List Ext) (hes : ∀ e ∈ es, WF e) :
-    (Ext.concat es).abs = (es.map Ext.abs).flatten := by
-  have := (concatFrom_spec es hes []).1
-  simpa [Ext.concat, Ext.abs] using this
-
-theorem wf_concat (es : List Ext) (hes : ∀ e ∈ es, WF e) : WF (Ext.concat es) := by
-  obtain ⟨_, h2, h3, _, _⟩ := concatFrom_spec es hes []
-  exact ⟨h2, by simpa [Ext.concat] using h3⟩
-
-theorem specBytes_append (a b : List Rec) : specBytes (a ++ b) = specBytes a ++ specBytes b := by
-  simp [specBytes]
-
-theorem specBytes_flatten (l : List (List Rec)) : specBytes l.flatten = (l.map specBytes).flatten := by
-  induction l with
-  | nil => rfl
-  | cons a l ih => simp [specBytes_append, ih]
-
-theorem inv_concat (es : List Ext) (hes : ∀ e ∈ es, Inv e) : Inv (Ext.concat es) := by
-  refine ⟨wf_concat es (fun e he => (hes e he).1), ?_⟩
-  intro hc
-  obtain ⟨_, _, _, h4, h5⟩ := concatFrom_spec es (fun e he => (hes e he).1) []
-  simp only [List.length_nil] at h4 h5
-  have hr := concat_refines es (fun e he => (hes e he).1)
-  unfold Ext.concat at hc hr ⊢
-  rw [hr, h4, specBytes_flatten]
-  rw [h5, List.all_eq_true] at hc
-  rw [List.map_map]
-  congr 1
-  apply List.map_congr_left
-  intro e he
-  exact (hes e he).2 (hc e he)
-
-/-! ### compaction -/
-
-theorem compactRows_spec (data : Bytes) (rs : List Row) (hrs : ∀ r ∈ rs, RowWF data.length r) :
-    ∀ (Pfx : Bytes),
-      (compactRows data Pfx.length rs).1.map (absRow (Pfx ++ (compactRows data Pfx.length rs).2)) = rs.map (absRow data)
-      ∧ (compactRows data Pfx.length rs).2 = (rs.map (fun r => (absRow data r).raw)).flatten
-      ∧ (∀ r ∈ (compactRows data Pfx.length rs).1, RowWF (Pfx.length + (compactRows data Pfx.length rs).2.length) r) := by
-  induction rs with
-  | nil => intro Pfx; simp [compactRows]
-  | cons r rs ih =>
-    intro Pfx
-    have hr := hrs r (by simp)
-    obtain ⟨h1, h2, h3, h4, h5⟩ := hr
-    have hn : (slice data r.eS (r.eE - r.eS)).length = r.eE - r.eS := slice_length _ _ _ (by omega)
-    have ih' := ih (fun x hx => hrs x (by simp [hx])) (Pfx ++ slice data r.eS (r.eE - r.eS))
-    simp only [List.length_append, hn] at ih'
-    obtain ⟨i1, i2, i3⟩ := ih'
-    simp only [compactRows]
-    refine ⟨?_, ?_, ?_⟩
-    · simp only [List.map_cons]
-      congr 1
-      · unfold absRow
-        simp only
-        congr 1
-        · have e1 : Pfx.length + (r.eE - r.eS) - Pfx.length = r.eE - r.eS := by omega
-          rw [e1, ← List.append_assoc]
-          have := slice_append_mid Pfx (slice data r.eS (r.eE - r.eS)) (compactRows data (Pfx.length + (r.eE - r.eS)) rs).2 0 (r.eE - r.eS) (by omega)
-          rw [Nat.add_zero] at this
-          rw [this]
-          conv => rhs; rw [← slice_zero_all (slice data r.eS (r.eE - r.eS))]
-          rw [hn]
-        · rw [List.zipWith_map_left]
-          apply List.ext_getElem
-          · simp
-          · intro i hi1 hi2
-            simp only [List.getElem_zipWith]
-            congr 1
-            have hi : i < r.fS.length := by simp [List.length_zipWith] at hi2; omega
-            have : r.eS ≤ r.fS[i] := h4 _ (List.getElem_mem _)
-            omega
-      · rw [← List.append_assoc]; exact i1
-    · simp only [List.map_cons, List.flatten_cons, i2]
-      rfl
-    · intro x hx
-      simp only [List.mem_cons] at hx
-      rw [List.length_append, hn]
-      cases hx with
-      | inl h =>
-        subst h
-        refine ⟨by simp, by simp, by simp [h3], ?_, ?_⟩
-        · intro s hs
-          simp only [List.mem_map] at hs
-          obtain ⟨s0, hs0, rfl⟩ := hs
-          have := h4 s0 hs0
-          simp; omega
-        · intro p hp
-          simp only at hp
-          rw [List.zip_map_left] at hp
-          simp only [List.mem_map] at hp
-          obtain ⟨p0, hp0, rfl⟩ := hp
-          have := h5 p0 hp0
-          have := h4 p0.1 (List.of_mem_zip hp0).1
-          simp; omega
-      | inr h =>
-        have := i3 x h
-        rw [Nat.add_assoc] at this; exact this
-
-theorem lenWF_ofRows (d : Bytes) (rs : List Row) (c : Bool) : LenWF (Ext.ofRows d rs c) := by
-  simp [LenWF, Ext.ofRows]
-
-/-- **C04.compact_preserves** — `_make_contigous` changes the representation only: the records
-denoted are the same (raw bytes and every field), and the new data is exactly those records in order. -/
-theorem compact_preserves (e : Ext) (h : WF e) :
-    e.compact.abs = e.abs ∧ e.compact.data = specBytes e.abs ∧ e.compact.contiguous = true := by
-  obtain ⟨s1, s2, _⟩ := compactRows_spec e.data e.rows h.2 []
-  simp only [List.length_nil, List.nil_append] at s1 s2
-  refine ⟨?_, ?_, rfl⟩
-  · unfold Ext.compact Ext.abs
-    simp only
-    rw [rows_ofRows]
-    exact s1
-  · unfold Ext.compact specBytes Ext.abs
-    simp only [Ext.ofRows]
-    rw [s2, List.map_map]
-    rfl
-
-theorem wf_compact (e : Ext) (h : WF e) : WF e.compact := by
-  obtain ⟨_, _, s3⟩ := compactRows_spec e.data e.rows h.2 []
-  simp only [List.length_nil, Nat.zero_add] at s3
-  refine ⟨lenWF_ofRows _ _ _, ?_⟩
-  intro r hr
-  unfold Ext.compact at hr ⊢
-  simp only at hr ⊢
-  rw [rows_ofRows] at hr
-  exact s3 r hr
-
-theorem inv_compact (e : Ext) (h : WF e) : Inv e.compact := by
-  obtain ⟨a, b, _⟩ := compact_preserves e h
-  exact ⟨wf_compact e h, fun _ => by rw [b, a]⟩
-
-theorem inv_select (e : Ext) (h : WF e) (ixs : List Nat) (hv : ∀ k ∈ ixs, k < e.len) : Inv (e.select ixs) :=
-  ⟨wf_select e h ixs hv, fun hc => by simp [Ext.select] at hc⟩
-
-theorem touch_abs (e : Ext) (h : WF e) : e.touch.abs = e.abs := by
-  unfold Ext.touch
-  split
-  · rfl
-  · exact (compact_preserves e h).1
-
-theorem inv_touch (e : Ext) (h : Inv e) : Inv e.touch := by
-  unfold Ext.touch
-  split
-  · exact h
-  · exact inv_compact e h.1
-
-/-- **C04.bytes_spec** — what `buffer.data` hands to the writer is exactly the denoted records' bytes -/
-theorem bytes_spec (e : Ext) (h : Inv e) : e.bytes = specBytes e.abs := by
-  unfold Ext.bytes Ext.touch
-  split
-  · rename_i hc; exact h.2 hc
-  · exact (compact_preserves e h.1).2.1
-
-/-! ### programs -/
-
-theorem index_inv (e : Ext) (h : Inv e) (ix : Idx) (e' : Ext) (he : e.index ix = some e') : Inv e' := by
-  unfold Ext.index at he
-  cases hix : ix.toList e.len with
-  | none => simp [hix] at he
-  | some ixs =>
-    simp [hix] at he
-    subst he
-    exact inv_select e h.1 ixs (toList_lt _ _ _ hix)
-
-theorem mem_take_drop {α} (l : List α) (a n : Nat) (x : α) (h : x ∈ (l.drop a).take n) : x ∈ l :=
-  List.mem_of_mem_drop (List.mem_of_mem_take h)
-
-/-- every program keeps the invariant and denotes what the same program gives on lists of records -/
-theorem program_abs (tabs : List Ext) (ht : ∀ t ∈ tabs, Inv t) (p : Prog) :
-    (∀ e, p.evalExt tabs = some e → Inv e) ∧
-    (p.evalExt tabs).map Ext.abs = p.evalSpec (tabs.map Ext.abs) := by
-  induction p with
-  | leaf k =>
-    refine ⟨fun e he => ht e (List.mem_of_getElem? he), ?_⟩
-    simp [Prog.evalExt, Prog.evalSpec, List.getElem?_map]
-  | sel p ix ih =>
-    obtain ⟨ih1, ih2⟩ := ih
-    simp only [Prog.evalExt, Prog.evalSpec]
-    cases hp : p.evalExt tabs with
-    | none =>
-      rw [hp] at ih2
-      simp at ih2
-      refine ⟨by simp, ?_⟩
-      rw [← ih2]; simp
-    | some e =>
-      rw [hp] at ih2
-      simp at ih2
-      have hI := ih1 e hp
-      refine ⟨fun e' he' => index_inv e hI ix e' (by simpa using he'), ?_⟩
-      rw [← ih2]
-      simp only [Option.bind_some]
-      exact select_refines e hI.1.1 ix
-  | cat p q ihp ihq =>
-    obtain ⟨p1, p2⟩ := ihp
-    obtain ⟨q1, q2⟩ := ihq
-    simp only [Prog.evalExt, Prog.evalSpec]
-    cases hp : p.evalExt tabs with
-    | none =>
-      rw [hp] at p2; simp at p2
-      rw [← p2]; simp
-    | some a =>
-      rw [hp] at p2; simp at p2
-      cases hq : q.evalExt tabs with
-      | none =>
-        rw [hq] at q2; simp at q2
-        rw [← p2, ← q2]; simp
-      | some b =>
-        rw [hq] at q2; simp at q2
-        rw [← p2, ← q2]
-        have hall : ∀ e ∈ [a, b], Inv e := by
-          intro e he
-          simp only [List.mem_cons, List.not_mem_nil, or_false] at he
-          rcases he with rfl | rfl
-          · exact p1 _ hp
-          · exact q1 _ hq
-        refine ⟨fun e he => by simp at he; subst he; exact inv_concat _ hall, ?_⟩
-        simp only [Option.map_some]
-        rw [concat_refines _ (fun e he => (hall e he).1)]
-        simp
-  | catRange a n =>
-    simp only [Prog.evalExt, Prog.evalSpec, List.length_map]
-    split
-    · have hall : ∀ e ∈ (tabs.drop a).take n, Inv e := fun e he => ht e (mem_take_drop _ _ _ _ he)
-      refine ⟨fun e he => by simp at he; subst he; exact inv_concat _ hall, ?_⟩
-      simp only [Option.map_some]
-      rw [concat_refines _ (fun e he => (hall e he).1)]
-      simp [List.map_take, List.map_drop]
-    · simp
-  | touch p ih =>
-    obtain ⟨ih1, ih2⟩ := ih
-    simp only [Prog.evalExt, Prog.evalSpec]
-    cases hp : p.evalExt tabs with
-    | none => rw [hp] at ih2; simp at ih2; rw [← ih2]; simp
-    | some e =>
-      rw [hp] at ih2; simp at ih2
-      have hI := ih1 e hp
-      refine ⟨fun e' he' => by simp at he'; subst he'; exact inv_touch e hI, ?_⟩
-      rw [← ih2]
-      simp [touch_abs e hI.1]
-
-/-- **C04.program_bytes** — for every finite program of selections (all index forms),
-binary and n-ary concatenations and in-between writes applied to tables that satisfy the
-invariant, the bytes handed to the writer are exactly the concatenation of the selected records'
-original bytes in the selected order; the program fails (IndexError) exactly when it fails on lists. -/
-theorem program_bytes (tabs : List Ext) (ht : ∀ t ∈ tabs, Inv t) (p : Prog) :
-    (p.evalExt tabs).map Ext.bytes = (p.evalSpec (tabs.map Ext.abs)).map specBytes := by
-  obtain ⟨h1, h2⟩ := program_abs tabs ht p
-  rw [← h2]
-  cases hp : p.evalExt tabs with
-  | none => rfl
-  | some e => simp [bytes_spec e (h1 e hp)]
-
-/-! ### fields are functions of the abstract record -/
-
-theorem mem_rows_zip (r : Row) (h : r.fS.length = r.fL.length) (j : Nat) (hj : j < r.fS.length) :
-    (r.fS[j], r.fL[j]'(by omega)) ∈ List.zip r.fS r.fL := by
-  have : (List.zip r.fS r.fL)[j]'(by simp [List.length_zip]; omega) = (r.fS[j], r.fL[j]'(by omega)) := by simp
-  rw [← this]; exact List.getElem_mem _
-
-theorem field_absRow (data : Bytes) (r : Row) (h : RowWF data.length r) (j : Nat) :
-    (absRow data r).field j = slice data (r.fS.getD j 0) (r.fL.getD j 0) := by
-  obtain ⟨h1, h2, h3, h4, h5⟩ := h
-  unfold Rec.field absRow
-  simp only
-  by_cases hj : j < r.fS.length
-  · have hj' : j < r.fL.length := by omega
-    have hz : (List.zipWith (fun s l => (s - r.eS, l)) r.fS r.fL)[j]? = some (r.fS[j] - r.eS, r.fL[j]) := by
-      simp [List.getElem?_zipWith, List.getElem?_eq_getElem hj, List.getElem?_eq_getElem hj']
-    rw [hz]
-    simp only [List.getD_eq_getElem?_getD, List.getElem?_eq_getElem hj, List.getElem?_eq_getElem hj', Option.getD_some]
-    have hb := h5 _ (mem_rows_zip r h3 j hj)
-    simp only at hb
-    exact slice_slice data r.eS r.eE _ _ (h4 _ (List.getElem_mem _)) hb h2
-  · have hz : (List.zipWith (fun s l => (s - r.eS, l)) r.fS r.fL)[j]? = none := by
-      simp [List.getElem?_zipWith, List.getElem?_eq_none (Nat.le_of_not_lt hj)]
-    rw [hz]
-    have hj' : r.fL.length ≤ j := by omega
-    simp [List.getD_eq_getElem?_getD, List.getElem?_eq_none (Nat.le_of_not_lt hj), List.getElem?_eq_none hj', slice]
-
-/-- **C04.field_text** — the text `get_field_by_number(j)` returns for every entry is the j-th
-field of the denoted record (a function of the record's own bytes: nothing outside the record is read) -/
-theorem field_text (e : Ext) (h : WF e) (j : Nat) : e.fieldText j = e.abs.map (·.field j) := by
-  unfold Ext.fieldText Ext.abs
-  rw [List.map_map]
-  apply List.map_congr_left
-  intro r hr
-  simp only [Function.comp]
-  exact (field_absRow e.data r (h.2 r hr) j).symm
-
-/-- **C04.program_fields** — after any program, every field of every record is the original
-text of that field in the selected source record (so a replaced write can only change replaced columns) -/
-theorem program_fields (tabs : List Ext) (ht : ∀ t ∈ tabs, Inv t) (p : Prog) (j : Nat) :
-    (p.evalExt tabs).map (fun e => e.fieldText j) = (p.evalSpec (tabs.map Ext.abs)).map (·.map (·.field j)) := by
-  obtain ⟨h1, h2⟩ := program_abs tabs ht p
-  rw [← h2]
-  cases hp : p.evalExt tabs with
-  | none => rfl
-  | some e => simp [field_text e (h1 e hp).1 j]
-
-/-! ### "rest of line" fields (VCF genotype columns, SAM tags) are functions of the record too -/
-
-theorem rel_getLast (r : Row) (h3 : r.fS.length = r.fL.length) (hne : 0 < r.fS.length) :
-    (List.zipWith (fun s l => (s - r.eS, l)) r.fS r.fL).getLast? =
-      some (r.fS.getLastD 0 - r.eS, r.fL.getLastD 0) := by
-  have h1 : r.fS.getLastD 0 = r.fS[r.fS.length - 1]'(by omega) := by
-    rw [List.getLastD_eq_getLast?, List.getLast?_eq_getElem?, List.getElem?_eq_getElem (by omega)]; rfl
-  have h2 : r.fL.getLastD 0 = r.fL[r.fL.length - 1]'(by omega) := by
-    rw [List.getLastD_eq_getLast?, List.getLast?_eq_getElem?, List.getElem?_eq_getElem (by omega)]; rfl
-  rw [List.getLast?_eq_getElem?, h1, h2]
-  simp only [List.length_zipWith, List.getElem?_zipWith]
-  have e1 : min r.fS.length r.fL.length - 1 = r.fS.length - 1 := by omega
-  rw [e1, List.getElem?_eq_getElem (by omega : r.fS.length - 1 < r.fS.length)]
-  have e2 : r.fS.length - 1 = r.fL.length - 1 := by omega
-  rw [List.getElem?_eq_getElem (by omega : r.fS.length - 1 < r.fL.length)]
-  simp [e2]
-
-theorem last_bounds (r : Row) (dlen : Nat) (h : RowWF dlen r) (hne : 0 < r.fS.length) :
-    r.eS ≤ r.fS.getLastD 0 ∧ r.fS.getLastD 0 + r.fL.getLastD 0 ≤ r.eE := by
-  obtain ⟨_, _, h3, h4, h5⟩ := h
-  have h1 : r.fS.getLastD 0 = r.fS[r.fS.length - 1]'(by omega) := by
-    rw [List.getLastD_eq_getLast?, List.getLast?_eq_getElem?, List.getElem?_eq_getElem (by omega)]; rfl
-  have h2 : r.fL.getLastD 0 = r.fL[r.fL.length - 1]'(by omega) := by
-    rw [List.getLastD_eq_getLast?, List.getLast?_eq_getElem?, List.getElem?_eq_getElem (by omega)]; rfl
-  rw [h1, h2]
-  refine ⟨h4 _ (List.getElem_mem _), ?_⟩
-  have := h5 _ (mem_rows_zip r h3 (r.fS.length - 1) (by omega))
-  simp only at this
-  have e2 : r.fS.length - 1 = r.fL.length - 1 := by omega
-  simpa [e2] using this
-
-/-- **C04.rest_text** — `get_fields_by_range(from_nr=j)` (repaired rule) returns, for every entry,
-the record's text from field j to the end of its last field -/
-theorem rest_text (e : Ext) (h : WF e) (j : Nat) (hj : ∀ r ∈ e.rows, j < r.fS.length) :
-    e.rest j = e.abs.map (·.rest j) := by
-  unfold Ext.rest Ext.abs
-  rw [List.map_map]
-  apply List.map_congr_left
-  intro r hr
-  simp only [Function.comp]
-  have hw := h.2 r hr
-  obtain ⟨h1, h2, h3, h4, h5⟩ := hw
-  have hjr := hj r hr
-  obtain ⟨lb1, lb2⟩ := last_bounds r _ (h.2 r hr) (by omega)
-  unfold Rec.rest absRow
-  simp only
-  rw [rel_getLast r h3 (by omega)]
-  have hz : (List.zipWith (fun s l => (s - r.eS, l)) r.fS r.fL)[j]? = some (r.fS[j] - r.eS, r.fL[j]'(by omega)) := by
-    simp [List.getElem?_zipWith, List.getElem?_eq_getElem hjr, List.getElem?_eq_getElem (by omega : j < r.fL.length)]
-  rw [hz]
-  simp only [List.getD_eq_getElem?_getD, List.getElem?_eq_getElem hjr, Option.getD_some]
-  have hs := h4 _ (List.getElem_mem hjr)
-  have hb := h5 _ (mem_rows_zip r h3 j hjr)
-  simp only at hb
-  have e1 : r.fS.getLastD 0 - r.eS + r.fL.getLastD 0 - (r.fS[j] - r.eS) = r.fS.getLastD 0 + r.fL.getLastD 0 - r.fS[j] := by omega
-  rw [e1]
-  exact (slice_slice e.data r.eS r.eE _ _ hs (by omega) h2).symm
-
-theorem byteAt_slice (d : Bytes) (s l i : Nat) (hi : i < l) : byteAt (slice d s l) i = byteAt d (s + i) := by
-  unfold byteAt slice
-  simp only [List.getD_eq_getElem?_getD, List.getElem?_take, hi, if_true, List.getElem?_drop]
-
-/-- **C04.sam_extra_text** — `_get_extra_field` (repaired rule) returns the record's text after its
-11th field and the following separator, up to the line terminator (LF or CRLF); empty when there are no tags -/
-theorem sam_extra_text (e : Ext) (h : WF e) (hne : ∀ r ∈ e.rows, 0 < r.fS.length)
-    (h2b : ∀ r ∈ e.rows, r.eS + 2 ≤ r.eE) :
-    e.samExtra = e.abs.map (·.extra) := by
-  unfold Ext.samExtra Ext.abs
-  rw [List.map_map]
-  apply List.map_congr_left
-  intro r hr
-  simp only [Function.comp]
-  obtain ⟨h1, h2, h3, h4, h5⟩ := h.2 r hr
-  obtain ⟨lb1, lb2⟩ := last_bounds r _ (h.2 r hr) (hne r hr)
-  have hlen := h2b r hr
-  unfold Rec.extra absRow
-  simp only
-  rw [rel_getLast r h3 (hne r hr)]
-  simp only
-  rw [slice_length _ _ _ (by omega)]
-  rw [byteAt_slice _ _ _ _ (by omega : r.eE - r.eS - 2 < r.eE - r.eS)]
-  have e9 : r.eS + (r.eE - r.eS - 2) = r.eE - 2 := by omega
-  rw [e9]
-  generalize (if byteAt e.data (r.eE - 2) == 13 then 1 else 0 : Nat) = c
-  have e0 : r.fS.getLastD 0 - r.eS + r.fL.getLastD 0 + 1 = (r.fS.getLastD 0 + r.fL.getLastD 0 + 1) - r.eS := by omega
-  have e1 : r.eE - r.eS - 1 - c - (r.fS.getLastD 0 + r.fL.getLastD 0 + 1 - r.eS) = r.eE - 1 - c - (r.fS.getLastD 0 + r.fL.getLastD 0 + 1) := by omega
-  rw [e0, e1]
-  by_cases hc : r.fS.getLastD 0 + r.fL.getLastD 0 + 1 ≤ r.eE
-  · exact (slice_slice e.data r.eS r.eE _ _ (by omega) (by omega) h2).symm
-  · have : r.eE - 1 - c - (r.fS.getLastD 0 + r.fL.getLastD 0 + 1) = 0 := by omega
-    rw [this]; simp [slice]
-
-/-! ### the invariant checker the driver runs on every constructed extractor is sound -/
-
-theorem rowWFb_sound (dlen : Nat) (r : Row) (h : rowWFb dlen r = true) : RowWF dlen r := by
-  unfold rowWFb at h
-  simp only [Bool.and_eq_true, decide_eq_true_eq, beq_iff_eq, List.all_eq_true] at h
-  obtain ⟨⟨⟨⟨a, b⟩, c⟩, d⟩, f⟩ := h
-  exact ⟨a, b, c, d, f⟩
-
-/-- **C04.invB_sound** — `Ext.invB e = true` establishes the hypothesis `Inv e` of the program theorems -/
-theorem invB_sound (e : Ext) (h : e.invB = true) : Inv e := by
-  unfold Ext.invB at h
-  simp only [Bool.and_eq_true, beq_iff_eq, List.all_eq_true, Bool.or_eq_true, Bool.not_eq_eq_eq_not, Bool.not_true] at h
-  obtain ⟨⟨⟨⟨a, b⟩, c⟩, d⟩, f⟩ := h
-  refine ⟨⟨⟨a, b, c⟩, fun r hr => rowWFb_sound _ r (d r hr)⟩, ?_⟩
-  intro hc
-  cases f with
-  | inl f => rw [hc] at f; exact absurd f (by decide)
-  | inr f => exact f
-
-/-! ### modified writes -/
-
-theorem getD_map_field (l : List Rec) (j i : Nat) :
-    (l.map (·.field j)).getD i [] = ((l[i]?).map (·.field j)).getD [] := by
-  simp only [List.getD_eq_getElem?_getD, List.getElem?_map]
-
-/-- the columns `get_buffer` assembles: replaced columns as given, the others fetched as text -/
-def columns (nF : Nat) (repl : List (Nat × List Bytes)) (e : Ext) : List (List Bytes) :=
-  (List.range nF).map (fun j =>
-    match repl.find? (·.1 == j) with
-    | some (_, col) => col
-    | none => e.fieldText j)
-
-/-- **C04.replace_fields** — a modified write of a well-formed extractor consists, record by record,
-of the replaced columns' new text and, for every other field of the entry type, the original text
-of that field in the denoted record, joined by the separator and terminated by a newline. -/
-theorem replace_fields (e : Ext) (h : WF e) (sep nF : Nat) (repl : List (Nat × List Bytes)) :
-    joinDelimited sep e.len (columns nF repl e) =
-      ((specFields nF repl e.abs).map (fun row => intercalate [sep] row ++ [10])).flatten := by
-  have hl : e.abs.length = e.len := by
-    unfold Ext.abs Ext.len; rw [List.length_map, rows_length e h.1]
-  unfold joinDelimited specFields transposeN columns
-  rw [hl]
-  simp only [List.map_map]
-  congr 1
-  apply List.map_congr_left
-  intro i _
-  simp only [Function.comp]
-  congr 2
-  apply List.map_congr_left
-  intro j _
-  simp only [Function.comp]
-  cases hrep : repl.find? (·.1 == j) with
-  | some pc => rfl
-  | none =>
-    simp only
-    rw [field_text e h j, getD_map_field]
-
-/-- **C04.program_replace** — the same after any program: unreplaced fields carry the original
-text of the selected source records. -/
-theorem program_replace (tabs : List Ext) (ht : ∀ t ∈ tabs, Inv t) (p : Prog) (sep nF : Nat)
-    (repl : List (Nat × List Bytes)) :
-    (p.evalExt tabs).map (fun e => joinDelimited sep e.len (columns nF repl e)) =
-      (p.evalSpec (tabs.map Ext.abs)).map
-        (fun recs => ((specFields nF repl recs).map (fun row => intercalate [sep] row ++ [10])).flatten) := by
-  obtain ⟨h1, h2⟩ := program_abs tabs ht p
-  rw [← h2]
-  cases hp : p.evalExt tabs with
-  | none => rfl
-  | some e => simp [replace_fields e (h1 e hp).1]
-
-/-! ### BAM: the same extractor without field tables -/
-
-/-- **C04.bam_records** — `BamBufferExtractor.__getitem__/_make_contigous/data` is the same machine
-with empty field tables: record bounds inside the data suffice for selection to be list indexing and
-for compaction to deliver exactly the selected records' bytes. -/
-theorem bam_records (e : Ext) (hl : LenWF e)
-    (hr : ∀ r ∈ e.rows, r.fS = [] ∧ r.fL = [] ∧ r.eS ≤ r.eE ∧ r.eE ≤ e.data.length) (ix : Idx) :
-    WF e ∧ (e.index ix).map Ext.abs = pyIndex e.abs ix ∧
-    (∀ e', e.index ix = some e' → e'.bytes = specBytes e'.abs) := by
-  have hwf : WF e := ⟨hl, fun r h => by
-    obtain ⟨a, b, c, d⟩ := hr r h
-    exact ⟨c, d, by rw [a, b], by rw [a]; simp, by rw [a]; simp⟩⟩
-  refine ⟨hwf, select_refines e hl ix, ?_⟩
-  intro e' he'
-  unfold Ext.index at he'
-  cases hix : ix.toList e.len with
-  | none => simp [hix] at he'
-  | some ixs =>
-    simp [hix] at he'
-    subst he'
-    exact bytes_spec _ (inv_select e hwf ixs (toList_lt _ _ _ hix))
-
-/-! ### the construction from a raw chunk: the shipped record-end rule is refuted -/
-
-def crlfWitness : Bytes := "a\t1\r\nbb\t22\r\n".toList.map Char.toNat
-
-/-- **C04.buildOld_unsound** — with the shipped rule (`entry_ends` taken after the carriage return
-was stripped from the last field) a CRLF file's extractor violates the invariant, and selecting
-`[1, 0]` writes records without their newline. Kept as the recorded refutation. -/
-theorem buildOld_unsound :
-    (buildDelimited false 9 crlfWitness).map Ext.invB = some false ∧
-    (buildDelimited false 9 crlfWitness).map (fun e => (e.select [1, 0]).bytes)
-      = some ("bb\t22\ra\t1\r".toList.map Char.toNat) := by decide +kernel
-
-/-- **C04.buildFixed_witness** — the repaired rule on the same file: invariant holds, selection
-writes the two source lines (with CRLF) in the selected order. -/
-theorem buildFixed_witness :
-    (buildDelimited true 9 crlfWitness).map Ext.invB = some true ∧
-    (buildDelimited true 9 crlfWitness).map (fun e => (e.select [1, 0]).bytes)
-      = some ("bb\t22\r\na\t1\r\n".toList.map Char.toNat) ∧
-    (buildDelimited true 9 crlfWitness).map (fun e => e.fieldText 1)
-      = some ["1".toList.map Char.toNat, "22".toList.map Char.toNat] := by decide +kernel
-
-/-! ### non-vacuity: the hypotheses are satisfiable by non-trivial values -/
-
-def demo : Ext := (buildDelimited true 9 ("chr1\t007\t+12\nc\t3\t4\nchrX\t10\t20\n".toList.map Char.toNat)).getD ⟨[], [], [], [], [], true⟩
-
-example : demo.invB = true := by decide +kernel
-example : Inv demo := invB_sound demo (by decide +kernel)
-example : (Prog.evalExt [demo, demo] (.sel (.cat (.sel (.leaf 0) (.slice none none (-1))) (.touch (.leaf 1))) (.ints [-1, 0, 0, 4]))).map Ext.bytes
-    = some ("chrX\t10\t20\nchrX\t10\t20\nchrX\t10\t20\nc\t3\t4\n".toList.map Char.toNat) := by decide +kernel
-example : (buildKLine 4 [1, 0, 0, 0] ("@r1 d\nACGT\n+r1 d\nIIII\n@r2\nAC\n+\n#I\n".toList.map Char.toNat)).map Ext.invB = some true := by decide +kernel
-example : (buildSam ("r1\t0\tc\t007\t60\t4M\t*\t0\t0\tACGT\tIIII\tNM:i:0\tXS:A:+\nr2\t16\tc\t9\t0\t2M\t=\t1\t0\tAC\tII\n".toList.map Char.toNat)).map
-    (fun e => (e.invB, e.samExtra)) = some (true, ["NM:i:0\tXS:A:+".toList.map Char.toNat, []]) := by decide +kernel
-example : (buildSam ("r1\t0\tc\t007\t60\t4M\t*\t0\t0\tACGT\tIIII\tNM:i:0\r\nr2\t16\tc\t9\t0\t2M\t=\t1\t0\tAC\tII\r\n".toList.map Char.toNat)).map
-    (fun e => (e.invB, e.samExtra, e.fieldText 10)) = some (true, ["NM:i:0".toList.map Char.toNat, []],
-      ["IIII".toList.map Char.toNat, "II".toList.map Char.toNat]) := by decide +kernel
-
-end C04
+import BnpVerif.Props.C04Core
+import BnpVerif.Props.C04Build
+import BnpVerif.Props.C04KLine
+/-! C04 property theorems: `C04Core` (refinement of the extractor to a list of records, programs,
+fields, modified writes, BAM, checker soundness, refutation of the shipped record-end rule) and
+`C04Build` (the construction from a raw chunk, for all well-formed delimited files, LF/CRLF/mixed) and
+`C04KLine` (the same for the k-line formats FASTQ / two-line FASTA). The audited theorems
+are listed in `Audit/C04.lean`. -/
